@@ -213,6 +213,9 @@ class OnceIter:
         self.pos = len(self.items)
         return rest
 
+    def __iter__(self):             # model code (stdlib stand-ins, rule hooks) iterating a one-shot value consumes it too
+        return iter(self.abs_iter())
+
 
 class Obj:
     """Abstract object of a scenario: attributes and methods supplied by the rule."""
@@ -812,7 +815,7 @@ class Evaluator:
         return out
 
     def _e_GeneratorExp(self, n):
-        return self._e_ListComp(n)
+        return OnceIter(self._e_ListComp(n))       # a generator can be consumed once
 
     def _e_SetComp(self, n):
         out = set()
@@ -1080,16 +1083,16 @@ class Evaluator:
                     return list(v)
                 raise Unsupported(f"{name} over an abstract iterable", n)
             if name == "zip":
-                return [tuple(t) for t in zip(*[as_list(a) for a in args])]
+                return OnceIter([tuple(t) for t in zip(*[as_list(a) for a in args])])
             if name == "reversed":
-                return list(reversed(as_list(args[0])))
+                return OnceIter(list(reversed(as_list(args[0]))))
             if name == "map":
                 f = args[0]
                 cols = [as_list(a) for a in args[1:]]
-                return [self._apply(f, list(t), n) for t in zip(*cols)]
+                return OnceIter([self._apply(f, list(t), n) for t in zip(*cols)])
             if name == "filter":
                 f = args[0]
-                return [x for x in as_list(args[1]) if self.truth(self._apply(f, [x], n) if f is not None else x, n)]
+                return OnceIter([x for x in as_list(args[1]) if self.truth(self._apply(f, [x], n) if f is not None else x, n)])
             if name == "round":
                 if any(isinstance(a, (Sym, Lin, Vec)) for a in args):
                     raise Unsupported("round of symbolic", n)
@@ -1262,7 +1265,7 @@ class Evaluator:
                 if isinstance(args[0], dict):
                     args[0] = list(args[0])
                 if isinstance(args[0], (list, tuple, str)):
-                    return list(enumerate(args[0], *args[1:2]))
+                    return OnceIter(list(enumerate(args[0], args[1] if len(args) > 1 else 0)))
                 raise Unsupported("enumerate of abstract", n)
         try:
             fv = self.ev(n.func)
